@@ -24,7 +24,7 @@ func footer(e *env) {
 	// the digest whose Sum64 Footer compares
 	var teeField *types.Var
 	for _, call := range core.Calls(foot.Decl.Body, info, func(call *ast.CallExpr, o types.Object) bool { return o != nil && o.Name() == "Sum64" }) {
-		if sel, ok := ast.Unparen(call.Fun).(*ast.SelectorExpr); ok {
+		if sel := funSel(info, foot.Decl.Body, call); sel != nil {
 			teeField = core.FieldOf(info, sel.X)
 		}
 	}
@@ -32,17 +32,56 @@ func footer(e *env) {
 		c.Undecidedf("R3.footer", "NewLoader/tee-digest", foot.Decl.Pos(), "Footer does not take Sum64 of a digest field")
 		return
 	}
-	// it is a sink of the TeeReader the loader reads from, and comes from a checked constructor
+	// it is a sink of the TeeReader the loader reads from, and comes from a checked
+	// constructor. The loader may be built field by field or as a composite literal,
+	// and the digest may be held in a single-assignment local first (the same object
+	// then goes to the tee and to the field).
 	teeToReader, fromNew, fed := false, false, false
+	stores := fieldStores(info, newLoader.Decl.Body)
+	var alias types.Object
+	var ctorCall *ast.CallExpr // the constructor call whose result ends up in the field
+	nds := &defs{info: info, body: newLoader.Decl.Body, g: cfgq.Of(c.Program, newLoader)}
+	for _, st := range stores {
+		if st.f != teeField {
+			continue
+		}
+		if nc, ok := nds.chase(st.v).(*ast.CallExpr); ok && e.isNew(core.CalleeFunc(info, nc)) {
+			fromNew, ctorCall = true, nc
+			if o := objOf(info, strip(info, st.v)); o != nil {
+				alias = o
+			}
+		}
+	}
+	// the object in the field is also reachable under another name when what is stored
+	// is not a fresh constructor result: "never fed" cannot be concluded then
+	heldElsewhere := false
+	for _, fn := range funcsOf(foot.Pkg) {
+		for _, st := range fieldStores(info, fn.Decl.Body) {
+			if _, fresh := strip(info, st.v).(*ast.CallExpr); st.f == teeField && !fresh && (alias == nil || objOf(info, strip(info, st.v)) != alias) {
+				heldElsewhere = true
+			}
+		}
+	}
+	isDigestRef := func(x ast.Expr) bool {
+		if core.FieldOf(info, x) == teeField {
+			return true
+		}
+		o := objOf(info, strip(info, x))
+		if o != nil && o == alias {
+			return true
+		}
+		// another name of the very same constructor result
+		return o != nil && ctorCall != nil && nds.chase(x) == ast.Expr(ctorCall)
+	}
 	for _, fn := range funcsOf(foot.Pkg) {
 		ast.Inspect(fn.Decl.Body, func(n ast.Node) bool {
 			if call, ok := n.(*ast.CallExpr); ok {
 				for _, a := range call.Args {
-					if core.FieldOf(info, a) == teeField {
+					if isDigestRef(a) {
 						fed = true
 					}
 				}
-				if sel, ok := ast.Unparen(call.Fun).(*ast.SelectorExpr); ok && core.FieldOf(info, sel.X) == teeField && sel.Sel.Name != "Sum64" {
+				if sel, ok := ast.Unparen(call.Fun).(*ast.SelectorExpr); ok && isDigestRef(sel.X) && sel.Sel.Name != "Sum64" {
 					fed = true
 				}
 			}
@@ -51,39 +90,17 @@ func footer(e *env) {
 	}
 	var teeCall *ast.CallExpr
 	ast.Inspect(newLoader.Decl.Body, func(n ast.Node) bool {
-		switch x := n.(type) {
-		case *ast.CallExpr:
-			if core.IsFunc(core.CalleeFunc(info, x), "io", "", "TeeReader") && len(x.Args) == 2 && core.FieldOf(info, x.Args[1]) == teeField {
-				teeCall = x
-			}
-			if e.isNew(core.CalleeFunc(info, x)) {
-				// l.crc = digest.New()   or   &Loader{crc: digest.New()}
-				for _, anc := range core.PathTo(newLoader.Decl.Body, x) {
-					switch a := anc.(type) {
-					case *ast.AssignStmt:
-						if len(a.Lhs) == 1 && len(a.Rhs) == 1 && core.FieldOf(info, a.Lhs[0]) == teeField && ast.Unparen(a.Rhs[0]) == ast.Expr(x) {
-							fromNew = true
-						}
-					case *ast.KeyValueExpr:
-						if id, ok := a.Key.(*ast.Ident); ok && info.Uses[id] == types.Object(teeField) && ast.Unparen(a.Value) == ast.Expr(x) {
-							fromNew = true
-						}
-					}
-				}
-			}
+		if x, ok := n.(*ast.CallExpr); ok && core.IsFunc(core.CalleeFunc(info, x), "io", "", "TeeReader") && len(x.Args) == 2 && isDigestRef(x.Args[1]) {
+			teeCall = x
 		}
 		return true
 	})
 	if teeCall != nil {
 		// the tee'd reader ends up in a field of the loader (wrapped, directly or through a local)
 		carriers := map[types.Object]bool{}
-		ast.Inspect(newLoader.Decl.Body, func(n ast.Node) bool {
-			as, ok := n.(*ast.AssignStmt)
-			if !ok || len(as.Lhs) != 1 || len(as.Rhs) != 1 {
-				return true
-			}
+		usesTee := func(v ast.Expr) bool {
 			uses := false
-			ast.Inspect(as.Rhs[0], func(m ast.Node) bool {
+			ast.Inspect(v, func(m ast.Node) bool {
 				if m == ast.Node(teeCall) {
 					uses = true
 				}
@@ -92,20 +109,37 @@ func footer(e *env) {
 				}
 				return true
 			})
-			if uses {
-				if core.FieldOf(info, as.Lhs[0]) != nil {
-					teeToReader = true
-				} else if o := objOf(info, as.Lhs[0]); o != nil {
-					carriers[o] = true
+			return uses
+		}
+		ast.Inspect(newLoader.Decl.Body, func(n ast.Node) bool {
+			switch as := n.(type) {
+			case *ast.AssignStmt:
+				for i, l := range as.Lhs {
+					if r := core.AssignedTo(as, i); r != nil && usesTee(r) {
+						if o := objOf(info, l); o != nil {
+							carriers[o] = true
+						}
+					}
+				}
+			case *ast.ValueSpec:
+				if len(as.Names) == 1 && len(as.Values) == 1 && usesTee(as.Values[0]) {
+					if o := info.Defs[as.Names[0]]; o != nil {
+						carriers[o] = true
+					}
 				}
 			}
 			return true
 		})
+		for _, st := range stores {
+			if st.f != teeField && (usesTee(st.v) || usesTee(nds.chase(st.v))) {
+				teeToReader = true
+			}
+		}
 	}
 	switch {
 	case teeToReader && fromNew:
 		c.Okf("R3.footer", "NewLoader/tee-digest", newLoader.Decl.Pos(), "every byte the loader reads is tee'd into field %s, a digest from a constructor checked under R2", teeField.Name())
-	case !fed:
+	case !fed && !heldElsewhere:
 		c.Failf("R3.footer", "NewLoader/tee-digest", newLoader.Decl.Pos(), "the digest field %s whose Sum64 Footer compares is never fed (no TeeReader/Write uses it): its value stays 0, so every intact RDB with a non-zero CRC is rejected and the check detects nothing", teeField.Name())
 		return
 	default:
@@ -114,8 +148,8 @@ func footer(e *env) {
 	}
 	g := cfgq.Of(c.Program, foot)
 	isSum := g.HasCall(func(call *ast.CallExpr, o types.Object) bool {
-		sel, ok := ast.Unparen(call.Fun).(*ast.SelectorExpr)
-		return ok && o != nil && o.Name() == "Sum64" && core.FieldOf(info, sel.X) == teeField
+		sel := funSel(info, foot.Decl.Body, call)
+		return sel != nil && o != nil && o.Name() == "Sum64" && core.FieldOf(info, sel.X) == teeField
 	})
 	isRead := g.HasCall(func(call *ast.CallExpr, o types.Object) bool {
 		f, _ := o.(*types.Func)
@@ -137,20 +171,20 @@ func footer(e *env) {
 	dom, w := g.Dominated(reads[0], isSum)
 	c.Check("R3.footer", "Footer/sum-before-read", reads[0].Node().Pos(), dom,
 		"Sum64 must be taken before the trailer is read: the read passes the 8 checksum bytes through the tee into the digest, so a Sum64 taken afterwards is the CRC of data+trailer and never equals the stored CRC (every intact RDB is rejected)", w...)
-	sumAs, ok1 := sums[0].Node().(*ast.AssignStmt)
-	readAs, ok2 := reads[0].Node().(*ast.AssignStmt)
-	if !ok1 || !ok2 || len(sumAs.Lhs) != 1 || len(readAs.Lhs) != 2 {
+	sumAs, readAs := boundTo(sums[0].Node()), boundTo(reads[0].Node())
+	if sumAs == nil || readAs == nil || len(sumAs.Lhs) != 1 || len(readAs.Lhs) != 2 {
 		c.Undecidedf("R3.footer", "Footer/mismatch-rejected", foot.Decl.Pos(), "Sum64 / trailer read are not bound to variables")
 		return
 	}
+	ds := &defs{info: info, body: foot.Decl.Body, g: g}
 	// the trailer read is 8 bytes little-endian
-	if rc := cfgq.ExecCalls(readAs); len(rc) > 0 {
+	if rc := cfgq.ExecCalls(reads[0].Node()); len(rc) > 0 {
 		if rf := c.FnOf(core.CalleeFunc(info, rc[len(rc)-1])); rf != nil {
 			le64(c, rf)
 		}
 	}
 	bd := pat.Binds{"_a": sumAs.Lhs[0], "_b": readAs.Lhs[0], "_err": readAs.Lhs[1]}
-	same := func(x, y ast.Expr) bool { return pat.Same(info, strip(info, x), strip(info, y)) }
+	same := func(x, y ast.Expr) bool { return pat.Same(info, strip(info, x), strip(info, y)) || ds.sameValue(x, y) }
 	// established: +1 if the fact establishes computed == stored, -1 if it
 	// establishes that they differ; a one-line boolean helper is looked through.
 	var outer map[types.Object]ast.Expr // parameters of a helper the verdict is delegated to -> Footer's arguments
@@ -192,7 +226,18 @@ func footer(e *env) {
 	eq := func(f cfgq.Fact) bool { return established(f) == 1 }
 	neq := func(f cfgq.Fact) bool { return established(f) == -1 }
 	noErr := func(f cfgq.Fact) bool {
-		return f.Val && pat.Expr("_err == nil").Match(info, f.Expr, bd) != nil || !f.Val && pat.Expr("_err != nil").Match(info, f.Expr, bd) != nil
+		if f.Val && pat.Expr("_err == nil").Match(info, f.Expr, bd) != nil || !f.Val && pat.Expr("_err != nil").Match(info, f.Expr, bd) != nil {
+			return true
+		}
+		// the error copied into another variable first
+		if be, ok := ast.Unparen(f.Expr).(*ast.BinaryExpr); ok && (be.Op == token.EQL) == f.Val && (be.Op == token.EQL || be.Op == token.NEQ) {
+			for _, pr := range [][2]ast.Expr{{be.X, be.Y}, {be.Y, be.X}} {
+				if core.IsNil(info, pr[1]) && objOf(info, pr[0]) != nil && ds.sameValue(pr[0], readAs.Lhs[1]) {
+					return true
+				}
+			}
+		}
+		return false
 	}
 	// success exits: `return nil`, or `return h(...)` where the same-package
 	// helper h decides (its own `return nil`s are then judged in h, with h's
@@ -271,12 +316,15 @@ func footer(e *env) {
 					}
 					return false, false
 				}
+				// a condition relates the two values when it mentions something derived from
+				// each of them (copies and anything computed from them included)
+				fromSum, fromRead := ds.derived(objOf(info, sumAs.Lhs[0])), ds.derived(objOf(info, readAs.Lhs[0]))
 				both := func(e ast.Expr) bool {
 					a, b := false, false
 					ast.Inspect(e, func(n ast.Node) bool {
 						if id, ok := n.(*ast.Ident); ok {
-							a = a || info.Uses[id] == objOf(info, sumAs.Lhs[0])
-							b = b || info.Uses[id] == objOf(info, readAs.Lhs[0])
+							a = a || fromSum[info.Uses[id]]
+							b = b || fromRead[info.Uses[id]]
 						}
 						return true
 					})
@@ -345,9 +393,29 @@ func le64(c *core.Ctx, fn *core.Fn) {
 				n = hi - lo
 			}
 		}
+		sameBuf := func(x ast.Expr) bool { return pat.Same(info, strip(info, x), strip(info, call.Args[0])) }
 		filled := len(core.Calls(fn.Decl.Body, info, func(rc *ast.CallExpr, o types.Object) bool {
-			return o != nil && o.Name() == "readFull" && len(rc.Args) == 1 && pat.Same(info, strip(info, rc.Args[0]), strip(info, call.Args[0]))
+			if o != nil && o.Name() == "readFull" && len(rc.Args) == 1 && sameBuf(rc.Args[0]) {
+				return true
+			}
+			f, _ := o.(*types.Func) // io.ReadFull(r, buf)
+			return core.IsFunc(f, "io", "", "ReadFull") && len(rc.Args) == 2 && sameBuf(rc.Args[1])
 		})) == 1
+		// a single Read(buf) may deliver fewer bytes than asked for without an error
+		// (io.Reader's contract; a bufio.Reader does so at every buffer boundary)
+		partial := core.Calls(fn.Decl.Body, info, func(rc *ast.CallExpr, o types.Object) bool {
+			f, _ := o.(*types.Func)
+			if f == nil || f.Name() != "Read" || len(rc.Args) != 1 || !sameBuf(rc.Args[0]) {
+				return false
+			}
+			sig := f.Type().(*types.Signature)
+			return sig.Recv() != nil && sig.Results().Len() == 2
+		})
+		if n == 8 && !filled && len(partial) == 1 {
+			c.Check("R3.footer", key, partial[0].Pos(), false,
+				fmt.Sprintf("%s fills the 8 checksum bytes with a single %s: Read may return fewer than 8 bytes with a nil error (it does at a buffer boundary of the underlying reader), the stale rest of the buffer is then decoded as the stored CRC and an intact RDB file is rejected; the bytes must be read with readFull / io.ReadFull", fn.Obj.Name(), c.Src(partial[0])))
+			return
+		}
 		if n < 0 || !filled {
 			c.Undecidedf("R3.footer", key, call.Pos(), "cannot see that %s fills exactly the decoded 8 bytes", fn.Obj.Name())
 			return
@@ -392,4 +460,93 @@ func predBody(c *core.Ctx, from *core.Fn, call *ast.CallExpr) (ast.Expr, map[typ
 		args[ps.At(i)] = call.Args[i]
 	}
 	return r.Results[0], args
+}
+
+// fstore is one value placed into a struct field: `x.f = v`, or an element of a
+// composite literal (keyed or positional).
+type fstore struct {
+	f *types.Var
+	v ast.Expr
+}
+
+func fieldStores(info *types.Info, body ast.Node) []fstore {
+	var out []fstore
+	ast.Inspect(body, func(n ast.Node) bool {
+		switch x := n.(type) {
+		case *ast.AssignStmt:
+			if x.Tok != token.ASSIGN && x.Tok != token.DEFINE {
+				return true
+			}
+			for i, l := range x.Lhs {
+				if f := core.FieldOf(info, l); f != nil {
+					if r := core.AssignedTo(x, i); r != nil {
+						out = append(out, fstore{f, r})
+					}
+				}
+			}
+		case *ast.CompositeLit:
+			t := info.TypeOf(x)
+			if t == nil {
+				return true
+			}
+			st, ok := t.Underlying().(*types.Struct)
+			if !ok {
+				return true
+			}
+			for i, el := range x.Elts {
+				if kv, ok := el.(*ast.KeyValueExpr); ok {
+					if id, ok := kv.Key.(*ast.Ident); ok {
+						if f, ok := info.Uses[id].(*types.Var); ok && f.IsField() {
+							out = append(out, fstore{f, kv.Value})
+						}
+					}
+				} else if i < st.NumFields() {
+					out = append(out, fstore{st.Field(i), el})
+				}
+			}
+		}
+		return true
+	})
+	return out
+}
+
+// bound is the list of variables a statement binds the results of its call to.
+type bound2 struct{ Lhs []ast.Expr }
+
+// boundTo reads `a, b := f()`, `a = f()` and `var a T = f()`.
+func boundTo(n ast.Node) *bound2 {
+	switch s := n.(type) {
+	case *ast.AssignStmt:
+		if len(s.Rhs) == 1 && (s.Tok == token.ASSIGN || s.Tok == token.DEFINE) {
+			return &bound2{Lhs: s.Lhs}
+		}
+	case *ast.DeclStmt:
+		if gd, ok := s.Decl.(*ast.GenDecl); ok && len(gd.Specs) == 1 {
+			return boundTo(gd.Specs[0])
+		}
+	case *ast.ValueSpec:
+		if len(s.Values) == 1 {
+			b := &bound2{}
+			for _, nm := range s.Names {
+				b.Lhs = append(b.Lhs, nm)
+			}
+			return b
+		}
+	}
+	return nil
+}
+
+// funSel: the selector a call goes through, also when the method value was bound
+// to a local first (`sum := l.crc.Sum64; sum()`).
+func funSel(info *types.Info, body ast.Node, call *ast.CallExpr) *ast.SelectorExpr {
+	fun := ast.Unparen(call.Fun)
+	if o := objOf(info, fun); o != nil {
+		if _, isVar := o.(*types.Var); isVar {
+			if rhs, other := defsOf(info, body, o); len(rhs) == 1 && other == 0 && rhs[0] != nil {
+				fun = ast.Unparen(rhs[0])
+			}
+		}
+	}
+	sel, _ := fun.(*ast.SelectorExpr)
+	return sel
 }
